@@ -6,6 +6,7 @@ CONSTANTS
   EraSecs = 64
   Epoch <- EpochScaled
   ForwardOnlyEraUnfold = FALSE
+  WholeSecondUnfold = FALSE
   RefSecs <- RefAll
   RefNs <- RefNsExh
   Offs <- OffAll
